@@ -11,12 +11,12 @@ Ltac wsimpl :=
 Lemma broker_feed_sess : forall w a, w_sess (broker_feed w a) = w_sess w.
 Proof.
   intros. unfold broker_feed. destruct (N.eqb (w_broker w) 0); [reflexivity|].
-  destruct (broker_split _ _ _) as [r rest]. destruct r; reflexivity.
+  destruct (broker_split _ _ _ _) as [r rest]. destruct r; reflexivity.
 Qed.
 Lemma broker_feed_live : forall w a, w_envok (broker_feed w a) = w_envok w.
 Proof.
   intros. unfold broker_feed. destruct (N.eqb (w_broker w) 0); [reflexivity|].
-  destruct (broker_split _ _ _) as [r rest]. destruct r; reflexivity.
+  destruct (broker_split _ _ _ _) as [r rest]. destruct r; reflexivity.
 Qed.
 
 Lemma io_write_sess : forall bs w, w_sess (fst (io_write bs w)) = w_sess w /\ w_envok (fst (io_write bs w)) = w_envok w.
